@@ -1423,6 +1423,74 @@ theorem w_single_outcome_refused (now0 : Nat) (sess : List Sess) (wf : List Bool
   rw [e2]
   exact hso
 
+open Coap.Msg Coap.MsgW Coap.Sim Coap.Sched in
+/-- **w_attempts_on_schedule_refused** (complement of `w_attempts_on_schedule_partial`): in a punctual run over the C06
+alphabet with one refused `coap_send` (and any failing retransmission writes), every write attempt of a Confirmable is
+either THE attempt of the refused call (at the time of the call, number 0 — it has no retransmission: nothing else in the
+outputs stems from it) or an attempt of a message accepted in `evs1 ++ evs2`, at its slot `t0 + (2^k − 1)·T` of the one `T`
+drawn at its `coap_send`, `k ≤ MAX_RETRANSMIT`; and every TOO_MANY_RETRIES NACK comes after all `MAX_RETRANSMIT + 1` attempts
+of an ACCEPTED message, one slot after the last — never for the refused one. -/
+theorem w_attempts_on_schedule_refused (now0 : Nat) (sess : List Sess) (wf : List Bool) (evs1 evs2 : List Ev)
+    (s : Nat) (con : Bool) (mid r : Nat)
+    (hs : ∀ se ∈ sess, SessOk se) (hin : RunG (init now0 sess) (evs1 ++ evs2))
+    (hpu : Punctual (init now0 sess) (evs1 ++ evs2))
+    (hopen : ((runW (initW now0 sess wf) evs1).l.getS s).sockOpen = true)
+    (hgate : gate ((runW (initW now0 sess wf) evs1).l.getS s) con = false)
+    (hfail : (runW (initW now0 sess wf) evs1).wf.headD false = true)
+    (hdev : (runW { runW (initW now0 sess wf) evs1 with wf := (runW (initW now0 sess wf) evs1).wf.tail } evs2).dev = false) :
+    let out := (runW (initW now0 sess wf) (evs1 ++ .submit s con mid r :: evs2)).l.out
+    (∀ t s' mid' k, Out.tx t s' mid' k true ∈ out →
+      (t = (Msg.run (init now0 sess) evs1).now ∧ s' = s ∧ mid' = mid ∧ k = 0 ∧ con = true) ∨
+      ∃ t0 r', Ev.submit s' true mid' r' ∈ evs1 ++ evs2 ∧ Out.tx t0 s' mid' 0 true ∈ out ∧
+        t = sched t0 (calcTimeout (parOf sess s').atI (parOf sess s').atF (parOf sess s').arfI (parOf sess s').arfF r') k ∧
+        k ≤ (parOf sess s').maxRtx) ∧
+    (∀ t s' mid', Out.nack t s' .retries mid' true ∈ out →
+      ∃ t0 r', Ev.submit s' true mid' r' ∈ evs1 ++ evs2 ∧
+        (∀ j, j ≤ (parOf sess s').maxRtx →
+          Out.tx (sched t0 (calcTimeout (parOf sess s').atI (parOf sess s').atF (parOf sess s').arfI
+            (parOf sess s').arfF r') j) s' mid' j true ∈ out) ∧
+        t = sched t0 (calcTimeout (parOf sess s').atI (parOf sess s').atF (parOf sess s').arfI (parOf sess s').arfF r')
+          ((parOf sess s').maxRtx + 1)) := by
+  intro out
+  obtain ⟨_, _, _, new, e4, e5⟩ :=
+    w_run_with_refused_send_is_m_without_it (initW now0 sess wf) evs1 evs2 s con mid r hopen hgate hfail hdev
+  have e4' : (Msg.run (init now0 sess) (evs1 ++ evs2)).out = new ++ (Msg.run (init now0 sess) evs1).out := e4
+  have e5' : out = new ++ .sub none :: .tx (Msg.run (init now0 sess) evs1).now s mid 0 con ::
+      (Msg.run (init now0 sess) evs1).out := e5
+  have hsub : ∀ o, o ∈ (Msg.run (init now0 sess) (evs1 ++ evs2)).out → o ∈ out := by
+    intro o ho
+    rw [e4'] at ho
+    rw [e5']
+    simp only [List.mem_append, List.mem_cons] at ho ⊢
+    rcases ho with h | h
+    · exact Or.inl h
+    · exact Or.inr (Or.inr (Or.inr h))
+  have hback : ∀ o, o ∈ out → o = .sub none ∨ o = .tx (Msg.run (init now0 sess) evs1).now s mid 0 con ∨
+      o ∈ (Msg.run (init now0 sess) (evs1 ++ evs2)).out := by
+    intro o ho
+    rw [e5'] at ho
+    rw [e4']
+    simp only [List.mem_append, List.mem_cons] at ho ⊢
+    rcases ho with h | h | h | h
+    · exact Or.inr (Or.inr (Or.inl h))
+    · exact Or.inl h
+    · exact Or.inr (Or.inl h)
+    · exact Or.inr (Or.inr (Or.inr h))
+  refine ⟨?_, ?_⟩
+  · intro t s' mid' k hmem
+    rcases hback _ hmem with h | h | h
+    · cases h
+    · simp only [Out.tx.injEq] at h
+      exact Or.inl ⟨h.1, h.2.1, h.2.2.1, h.2.2.2.1, h.2.2.2.2.symm⟩
+    · obtain ⟨t0, r', h1, h2, h3, h4⟩ := m_schedule_all now0 sess (evs1 ++ evs2) hs hin hpu t s' mid' k h
+      exact Or.inr ⟨t0, r', h1, hsub _ h2, h3, h4⟩
+  · intro t s' mid' hmem
+    rcases hback _ hmem with h | h | h
+    · cases h
+    · cases h
+    · obtain ⟨t0, r', h1, h2, h3⟩ := m_giveup_after_all_retransmissions now0 sess (evs1 ++ evs2) hs hin hpu t s' mid' h
+      exact ⟨t0, r', h1, fun j hj => hsub _ (h2 j hj), h3⟩
+
 open Coap.Msg Coap.MsgW in
 /-- non-vacuity of section (10'): MAX_RETRANSMIT 2; message 1 is sent at 0; at 2000 its retransmission is written; at 2500 a
 `coap_send` of message 7 on session 1 is refused (its write fails); the run goes on: the hypotheses hold, message 7 is nowhere,
@@ -1438,7 +1506,8 @@ example : let lw0 := initW 0 [{ maxRtx := 2 }, { maxRtx := 2 }] [false, false, t
     (runW lw0 (evs1 ++ .submit 1 true 7 0 :: evs2)).l.out =
       [.wait 6000 8000, .tx 6000 0 1 2 true, .sub none, .tx 2500 1 7 0 true, .wait 2000 4000, .tx 2000 0 1 1 true,
        .sub (some 1), .tx 0 0 1 0 true] ∧
-    Coap.Sched.RunG (init 0 [{ maxRtx := 2 }, { maxRtx := 2 }]) (evs1 ++ evs2) := by decide
+    Coap.Sched.RunG (init 0 [{ maxRtx := 2 }, { maxRtx := 2 }]) (evs1 ++ evs2) ∧
+    Coap.Sim.Punctual (init 0 [{ maxRtx := 2 }, { maxRtx := 2 }]) (evs1 ++ evs2) := by decide
 
 /-! ## (11) an ACK that carries the message id ends the Confirmable whatever code it carries (round X06, seed C06-11)
 
